@@ -173,9 +173,11 @@ def run(chk):
     dp = os.path.join(tmp, 'deployed.bin')
     old_data = bytes(range(40))
     for h in [None, 'bytes=0-15', 'bytes=-5', 'bytes=10-', 'bytes=3-3']:
-        for event in ('replace', 'unlink'):
+        for event in ('replace', 'unlink', 'replace-in-handler', 'unlink-in-handler'):
             with open(dp, 'wb') as fh:
                 fh.write(old_data)
+            in_handler = event.endswith('-in-handler')
+            event = event.split('-')[0]
 
             def ev(event=event):
                 if event == 'replace':
@@ -185,7 +187,7 @@ def run(chk):
                 else:
                     os.unlink(dp)
             try:
-                status, headers, chunks, errs = sl.serve(os.path.basename(dp), os.path.dirname(dp), rng=h, between=ev)
+                status, headers, chunks, errs = sl.serve(os.path.basename(dp), os.path.dirname(dp), rng=h, between=ev, between_in_handler=in_handler)
                 body = b''.join(chunks)
             except Exception as e:   # noqa
                 status, headers, body = -1, [], repr(e).encode()
